@@ -114,6 +114,7 @@ type Path struct {
 	notes     map[string]string
 	regions   map[string]*Term
 	steps     int64
+	stepBudget int64 // per-path override (Param "engine.msteps")
 	known     map[*Term]bool // literals already asserted on this path
 	incon     []string
 	reached   []string
@@ -456,6 +457,12 @@ func (p *Path) concretize(t *Term, max int, what string) uint64 {
 
 func (p *Path) step() {
 	p.steps++
+	if p.stepBudget > 0 {
+		if p.steps > p.stepBudget {
+			p.abort(abBudget, "instruction budget exhausted")
+		}
+		return
+	}
 	if p.steps > p.w.ex.opt.StepBudget {
 		p.abort(abBudget, "instruction budget exhausted")
 	}
